@@ -199,7 +199,8 @@ def run_seeded(args):
         try:
             obs = run_rules(Repo(d), [x for x in rules if x in _R])
         except AnalysisError as e:
-            return (name, "M", "ok", f"ANALYSIS-ERROR {str(e)[:100]}")
+            # the registered command would exit 2 (analysis broken), not report a violation: not a detection
+            return (name, "M", "fail", f"seeded breaking change gives an ANALYSIS-ERROR instead of a violation: {str(e)[:160]}")
         bad = [o for o in obs if not o.ok and o.key() not in base]
         if bad:
             o = bad[0]
